@@ -121,9 +121,9 @@ PROPS = {
                      'shim/fixpoint.rs contracts of petgraph 0.6 / fnv / std BTreeSet (external_body), written from their documentation',
                      'rule R5: .expect(..) -> .unwrap() with proved precondition',
                      '64-bit target (usize = u64)']},
-    "C24": {'units': ['callgraph'],
+    "C24": {'units': ['callgraph', 'callgraph_build'],
      'level_text': 'find_call_sequences_from_node_to_target and find_call_sequences_to_target of analysis/callgraph.rs (and the types Tid, Term<T> of intermediate_representation/term.rs) are extracted '
-                   'verbatim from /repo on each run and verified by Verus for EVERY call graph (any number of nodes and edges, cycles, self-calls, parallel calls) and every pair of nodes: the returned '
+                   'verbatim from /repo on each run and verified by Verus for every call graph and, through unit callgraph_build, for every program (any number of nodes and edges, cycles, self-calls, parallel calls) and every pair of nodes: the returned '
                    'set is exactly { tid(e) : the call edge e lies on some path of head-to-tail edges from the source node to the target node } (path-based specification written from the property '
                    'statement; the reading "source reaches the caller of e and the callee of e reaches target" is proved equivalent), the graph is never indexed with a non-existing edge, and both '
                    'depth-first searches terminate (measure: unvisited nodes, then stack length). The wrapper find_call_sequences_to_target returns that set for the first nodes labelled with the two '
@@ -146,7 +146,7 @@ PROPS = {
                      'of "exactly")',
                      'R9: `callgraph.node_indices().find(|node| callgraph[*node] == *TID).unwrap_or_else(|| panic!(..))` yields the first node labelled TID and diverges when there is none; derived == on '
                      'Tid read as specification equality',
-                     "the type alias CallGraph<'a> = DiGraph<Tid, &'a Term<Jmp>> is restated in the unit (the extractor does not pull type aliases); Jmp is opaque",
+                     "the type alias CallGraph<'a> = DiGraph<Tid, &'a Term<Jmp>> is restated in the unit (the extractor does not pull type aliases); Jmp is extracted",
                      '64-bit target (usize = u64)']},
     "C05": {'units': ['mem_region'],
      'level_text': 'MemRegion<T>::{new, get_address_bytesize, clear_interval, insert_at_byte_index, add, get, get_unsized, remove, merge_write_top, mark_interval_values_as_top, '
@@ -220,6 +220,38 @@ PROPS = {
         "assumptions": ['apint 0.2.0 contracts (shim/apint.rs, shim/apint_ops.rs) and the gcd crate contract (shim/gcd.rs: returns the mathematical gcd; its divisibility properties are proved)', "vstd's specifications of u64::trailing_zeros / leading_zeros (assume_specification + axioms shipped with vstd)", 'derive-generated PartialEq/Clone of Interval, IntervalDomain, BitvectorDomain restated as structural equality / copy', 'rule R5 (a failing assert!/expect diverges); 64-bit usize; bit widths multiples of 8 (byte_w)'] + ["machine arithmetic: narrow() on the refined value; lcm of the strides <= u64::MAX for 33..64 bit wide intersections", "widths <= 64 bit"],
     },
 }
+
+# ---- C24 extended to whole programs by unit callgraph_build (overrides of the entry above) -------------------------
+TWINS["callgraph_build"] = [("get_program_callgraph", "c24.calls"), ("cgb_query_program", "c24.calls")]
+PROPS["C24"]["units"] = ["callgraph", "callgraph_build"]
+PROPS["C24"]["level_text"] = (
+    "find_call_sequences_from_node_to_target, find_call_sequences_to_target and get_program_callgraph of analysis/callgraph.rs (with the types Tid, Term, "
+    "Program, Sub, Blk, Def, ExternSymbol, Arg, Datatype) are extracted verbatim from /repo on each run and verified by Verus. Query: for EVERY call graph (any "
+    "number of nodes and edges, cycles, self-calls, parallel calls) and every pair of nodes the returned set is exactly { tid(e) : the call edge e lies on some "
+    "path of head-to-tail edges from the source node to the target node } (path-based specification written from the property statement), the graph is never "
+    "indexed with a non-existing edge, and both depth-first searches terminate. Build: for EVERY program whose sub terms carry a tid that is a key of "
+    "program.term.subs the graph has exactly one node per function, and its edges are in one-to-one correspondence with the positions (function, block, jump) "
+    "holding a direct call whose target is a function of the program, each edge from the caller's node to the callee's node carrying that jump; nothing else is "
+    "an edge. A verified client composes both: find_call_sequences_to_target(&get_program_callgraph(p), s, t) returns exactly the tids of the direct calls "
+    "between internal functions that lie on some chain of such calls from function s to function t -- stated over subs/blocks/jmps only.")
+PROPS["C24"]["level_note"] = (
+    "Claim is for every program under two hypotheses on Tid (vstd obeys_cmp and obeys_key_model: the derived Ord/Hash/Eq are lawful) and the precondition that "
+    "every sub term's tid is a key of subs (implied by subs[k].tid == k; otherwise the code panics or attributes calls to another function). Jmp is the real extracted enum and "
+    "the test `if let Jmp::Call { target, .. }` is verified verbatim. BTreeMap::keys()/values() are "
+    "substituted by iter(). Of 'exactly', one step of the query is assumed, not proved: the final `.iter().filter_map(..).collect()` is an R9 substitution whose "
+    "contract is 'the tids of the edges contained in both edge sets'. Trusted: shim/callgraph.rs and shim/callgraph_build.rs (petgraph DiGraph seen as an edge "
+    "sequence: new / add_node / add_edge / neighbors_directed / edges_directed / EdgeReference::id / Direction from the petgraph documentation, u32 index bounds "
+    "and capacity panics read as divergence, std BTreeSet::new/insert as a Set), vstd's HashMap/BTreeMap specifications, the restated type alias CallGraph. "
+    "find_call_sequences_to_target panics when a tid labels no node: not claimed. The composition client is unit text (@raw): verified, probed by hand.")
+PROPS["C24"]["not_covered"] = ["ordering of nodes/edges (BTreeMap iteration order) is not specified", "petgraph capacity panics (>= 2^32-1 nodes or edges)",
+                               "panic of find_call_sequences_to_target for a tid that is no function"]
+PROPS["C24"]["assumptions"] = PROPS["C24"]["assumptions"] + [
+    "shim/callgraph_build.rs: petgraph DiGraph::new (empty), add_node (appends, returns old node count), add_edge (requires existing endpoints, appends, returns old edge count)",
+    "HYPOTHESES vstd::laws_cmp::obeys_cmp::<Tid>() and vstd::std_specs::hash::obeys_key_model::<Tid>()",
+    "R9: BTreeMap keys() / values() -> iter()",
+    "PRECONDITION cgb_pre: forall k in subs: subs[k].tid is a key of subs",
+]
+
 
 
 def twin_for(unit, label):
